@@ -135,9 +135,27 @@ pub fn judge(r: &RefRun, idx: usize, cfg: &RunCfg, obs: Option<&Obs>, exit: &Exi
         End::Cut => match exit {
             Exit::Signal(s) => Verdict::Violation(Failure { kind: format!("crash:{}", child::signal_name(*s)), detail: format!("killed by {} after {} events", child::signal_name(*s), got.len()), cfg: idx }),
             Exit::Code(c) if *c == child::EXIT_TOO_MANY_EVENTS => mismatch(idx, "more events than the canonical run has", &canon, got),
-            Exit::Code(c) if *c == child::EXIT_LOG_FULL => Verdict::Inconclusive("event log full".into()),
+            Exit::Code(c) if *c == child::EXIT_LOG_FULL => {
+                if expects_no_return(r, cfg) {
+                    Verdict::Ok // still running (and logging canonical events) when the log filled up
+                } else {
+                    Verdict::Inconclusive("event log full".into())
+                }
+            }
             Exit::Code(c) => Verdict::Violation(Failure { kind: "exit".into(), detail: format!("process exited with code {c} inside the call"), cfg: idx }),
-            Exit::Timeout => Verdict::Inconclusive("timeout".into()),
+            Exit::Timeout => {
+                if expects_no_return(r, cfg) {
+                    // the call is still running at the end of the window, as it must be;
+                    // everything it logged is canonical (checked above)
+                    if r.cycle_events > 0 || got.len() == r.events.len() {
+                        Verdict::Ok
+                    } else {
+                        Verdict::Inconclusive(format!("divergent run had logged only {} of {} events at the deadline", got.len(), r.events.len()))
+                    }
+                } else {
+                    Verdict::Inconclusive("timeout".into())
+                }
+            }
         },
         End::Returned(fin) => {
             let faulted = fault_exp.is_some() && cfg.fault != Fault::OutAbsent;
@@ -200,12 +218,30 @@ pub fn judge(r: &RefRun, idx: usize, cfg: &RunCfg, obs: Option<&Obs>, exit: &Exi
     }
 }
 
+/// Configurations that must never return: unlimited execution of a canonically
+/// divergent program without an I/O fault.
+pub fn expects_no_return(r: &RefRun, cfg: &RunCfg) -> bool {
+    r.fate == Fate::Diverges && !matches!(cfg.mode, Mode::Limited(_)) && matches!(cfg.fault, Fault::None | Fault::OutAbsent)
+}
+
+/// Window for a configuration that is expected not to return: long enough that a
+/// backend which terminates would have done so (>= 100x the canonical prefix).
+pub fn no_return_window(r: &RefRun) -> Duration {
+    Duration::from_millis(300 + r.steps / 2_000)
+}
+
 /// Watchdog window for a child running `ncfgs` configurations of a program
 /// whose canonical run took `steps` steps.
 pub fn window(steps: u64, ncfgs: usize) -> Duration {
-    let per = 2_000 + steps / 500; // ms: 2 s + 2 us per canonical step
+    let base = if FAST_REJECT.load(std::sync::atomic::Ordering::Relaxed) { 250 } else { 2_000 };
+    let per = base + steps / 500; // ms: 2 s + 2 us per canonical step
     Duration::from_millis(per * ncfgs.max(1) as u64)
 }
+
+/// While shrinking a failure that is not a hang, candidates that hang are
+/// simply rejected (short window, no confirmation): a timeout can then only
+/// lose a shrink step, never create a finding.
+pub static FAST_REJECT: std::sync::atomic::AtomicBool = std::sync::atomic::AtomicBool::new(false);
 
 /// Run all configurations in one forked child.
 pub fn run_child(code: &str, input: &[u8], bits: u32, cfgs: &[RunCfg], r: &RefRun, timeout: Duration) -> ChildRun {
@@ -223,9 +259,14 @@ pub fn run_and_judge(code: &str, input: &[u8], bits: u32, cfgs: &[RunCfg], r: &R
     let mut observations: Vec<Option<Obs>> = vec![None; cfgs.len()];
     let mut start = 0;
     while start < cfgs.len() {
-        let batch = &cfgs[start..];
-        let run = run_child(code, input, bits, batch, r, window(r.steps, batch.len()));
-        let mut next = cfgs.len();
+        // a configuration that must not return gets a child (and a window) of its own
+        let mut end = start;
+        while end < cfgs.len() && !expects_no_return(r, &cfgs[end]) {
+            end += 1;
+        }
+        let (batch, win) = if end == start { (&cfgs[start..start + 1], no_return_window(r)) } else { (&cfgs[start..end], window(r.steps, end - start)) };
+        let run = run_child(code, input, bits, batch, r, win);
+        let mut next = start + batch.len();
         for (j, cfg) in batch.iter().enumerate() {
             let idx = start + j;
             let obs = run.obs.iter().find(|o| o.cfg == j);
@@ -234,7 +275,7 @@ pub fn run_and_judge(code: &str, input: &[u8], bits: u32, cfgs: &[RunCfg], r: &R
                 observations[idx] = Some(o.clone());
             }
             let cut = obs.map(|o| o.end == End::Cut).unwrap_or(false);
-            if cut && run.exit == Exit::Timeout {
+            if cut && run.exit == Exit::Timeout && !expects_no_return(r, cfg) && !FAST_REJECT.load(std::sync::atomic::Ordering::Relaxed) {
                 v = confirm_hang(code, input, bits, idx, cfg, r);
             }
             let stop = cut || obs.is_none();
